@@ -53,6 +53,26 @@ claim("C04", "must-pass-through over CFG regions + mod-set inclusion over the ca
       "discipline; what the re-initialised value is, is not decided.",
       TRUST, "DESIGN.md §3 C04")
 
+claim("C08", "who-may-call + exactly-once path counting + must-pass-through over clang CFG",
+      "Release paths: removePeer only from the disconnection routine, peer descriptors closed only there, notify-before-release, each release "
+      "effect exactly once, no input after disconnect, registration exactly once, edge-triggered read loop drains until would-block, "
+      "response-timer ownership (settle or close). Descriptor counts are a runtime observation and are not decided.",
+      TRUST, "DESIGN.md §3 C08")
+claim("C09", "effect analysis over the whole-program call graph + ordering facts",
+      "Nothing reachable from the shared router handler's per-request entry points mutates Router/SegmentTreeNode state (frozen STL mutator "
+      "table); shutdown ordering facts; foreign threads reach worker-owned tables only through the queues. Not a full race analysis.",
+      TRUST, "DESIGN.md §3 C09")
+claim("C10", "dominance ordering + path automata over clang CFG",
+      "Search order fixed>param>optional>splat with immediate return on a match, bindings undone on backtracking, exactly one terminal action "
+      "per path of Router::route, 405 only with an Allow list built from other matching methods, sanitisation before every tree access. "
+      "The match result for every table x path is not decided.",
+      TRUST, "DESIGN.md §3 C10")
+claim("C15", "type-level CAS check + who-may-call + typestate path automaton",
+      "Single-outstanding-request protocol of a pooled connection: atomic Idle->Used claim, performImpl only on a claimed connection, settle "
+      "exactly once then release then hand back in all three completion routines, clean parser on hand-back (known finding: time-out path), "
+      "persistent timer registration. Response<->request matching over server behaviours is not decided.",
+      TRUST, "DESIGN.md §3 C15")
+
 for pid in ["C01", "C03", "C04", "C05", "C06", "C08", "C09", "C10", "C11", "C12", "C13", "C14", "C15", "C16", "C17", "C18", "C19"]:
     if pid not in CLAIMS:
         na(pid, "static rule set designed in DESIGN.md §3 but its check is not wired in yet (under construction in this session)")
